@@ -1706,7 +1706,7 @@ FORMULAS = {
     'C05': ['min_add', 'min_double', 'opforms', 'min_scalar_mul_step', 'min_scalar_mul', 'min_scalar_mul_vartime'],
     'C06': ['ark_decompress', 'min_decompress', 'ark_elligator', 'min_elligator'],
     'C07': ['ark_elligator', 'min_elligator', 'min_add', 'min_hash_to_curve', 'ark_hash_to_curve', 'min_encode_to_curve', 'ark_encode_to_curve'],
-    'C08': ['ark_eq', 'min_eq', 'ark_affine_eq', 'ark_is_identity', 'min_is_identity'],
+    'C08': ['ark_eq', 'min_eq', 'ark_affine_eq', 'ark_is_identity', 'min_is_identity', 'convforms'],
     'C10': ['fq_power_step', 'opforms'],
     'C11': ['fq_from_bytes_checked', 'fr_from_bytes_checked', 'fp_from_bytes_checked', 'fq_from_le_bytes_mod_order', 'fr_from_le_bytes_mod_order',
             'fp_from_le_bytes_mod_order', 'fq_to_bytes', 'fr_to_bytes', 'fp_to_bytes', 'opforms'],
